@@ -147,6 +147,8 @@ def gen_case(rng, idx):
             el["idle"] = True           # waits on an awaitable nothing else references
         elif fl is not None and rng.random() < 0.3:
             el["churn"] = True          # allocates cyclic garbage: the garbage collector runs while the daemon is up
+        if fl == "asyncio" and rng.random() < 0.3:
+            el["stubborn"] = True       # absorbs the first cancellation (flushes state), gives in to the second
         if fl is not None and rng.random() < 0.15:
             # a constructor that outlasts several polls of the accept loop (asyncio services are started by
             # the loop that is busy constructing, trio / thread services by another thread: SLOW_FINDING)
@@ -234,7 +236,7 @@ def write_config(case, d):
         chain = []
         for e in elems:
             kw = "ident=%d" % e["ident"]
-            for flag in ("idle", "churn"):
+            for flag in ("idle", "churn", "stubborn"):
                 if e.get(flag):
                     kw += ", %s=True" % flag
             if e.get("slow"):
@@ -260,7 +262,7 @@ def write_config(case, d):
             lines.append("pipeline:")
             for e in elems:
                 args = {"ident": e["ident"]}
-                for flag in ("idle", "churn"):
+                for flag in ("idle", "churn", "stubborn"):
                     if e.get(flag):
                         args[flag] = True
                 if e.get("slow"):
